@@ -36,6 +36,10 @@ CONSTANTS Prods, Cons, Stoppers,
           DeclaredMax,  \* max_enqueuer passed to the constructor (0 = not declared)
           Timeout,      \* BOOLEAN: a timeout is configured (wait may time out)
           IgnoreError,  \* BOOLEAN: the queue's ignore_error flag
+          Shared,       \* BOOLEAN: producers are pool workers drawing from ONE shared input through
+                        \* _ThreadSafeIterator (piter_fn / pmap); FALSE: one input per producer (piter_multiplex)
+          SrcN, SrcFail,\* shared input: number of items, failing position (0 = none)
+          Steps,        \* [Cons -> Int] DequeueIterator num_steps for mode "diter" (-1 = until exhausted)
           Fixes         \* subset of {"stop_notify_enqueuers", "stopped_flag", "batch_recheck_done"}:
                         \* the repairs recorded in known_findings.json that the working tree contains.
                         \* The empty set is the pinned commit; TLC rejects it (see checks/c04, c05).
@@ -43,10 +47,13 @@ CONSTANTS Prods, Cons, Stoppers,
 VARIABLES pc, ownE, ownD, ownS, waitE, waitD, notified, q,
           start, stop, maxenq, exc, exhausted, returned, stopped,
           idx, item,          \* producer locals: items taken so far, item in flight
+          ownL, srcIdx,       \* shared input: the _ThreadSafeIterator lock and the source position
+          cnt,                \* DequeueIterator._cnt per consumer
+          pend,               \* mode "diter": how the inner iterator ended, reported once MultiplexIterator.__next__ returns
           res, val,           \* consumer locals: batch under construction, element just dequeued
           received, ended     \* observable outcome per consumer
 vars == <<pc, ownE, ownD, ownS, waitE, waitD, notified, q, start, stop, maxenq, exc, exhausted, returned, stopped,
-          idx, item, res, val, received, ended>>
+          idx, item, ownL, srcIdx, cnt, pend, res, val, received, ended>>
 
 Procs == Prods \cup Cons \cup Stoppers
 NoOne == "none"
@@ -64,8 +71,11 @@ Without(w, p) == SelectSeq(w, LAMBDA x : x # p)
 
 Init ==
   /\ pc = [p \in Procs |-> IF p \in Prods THEN "p_start"
-                           ELSE IF p \in Cons THEN (IF Mode[p] = "get" THEN "c_acqD" ELSE "b_acqD")
+                           ELSE IF p \in Cons THEN (IF Mode[p] = "get" THEN "c_acqD"
+                                                    ELSE IF Mode[p] = "diter" /\ Steps[p] = 0 THEN "x1_acqS"
+                                                    ELSE "b_acqD")
                            ELSE "s_acqS"]
+  /\ ownL = NoOne /\ srcIdx = 0 /\ cnt = [c \in Cons |-> 0] /\ pend = [c \in Cons |-> <<"run">>]
   /\ ownE = NoOne /\ ownD = NoOne /\ ownS = NoOne
   /\ waitE = <<>> /\ waitD = <<>> /\ notified = {}
   /\ q = <<>>
@@ -83,9 +93,9 @@ Goto(p, l) == pc' = [pc EXCEPT ![p] = l]
 UNCH_LOCKS == UNCHANGED <<ownE, ownD, ownS>>
 UNCH_WAIT  == UNCHANGED <<waitE, waitD, notified>>
 UNCH_STATE == UNCHANGED <<start, stop, maxenq, exc, exhausted, returned, stopped>>
-UNCH_PLOC  == UNCHANGED <<idx, item>>
+UNCH_PLOC  == UNCHANGED <<idx, item, ownL, srcIdx>>
 UNCH_CLOC  == UNCHANGED <<res, val>>
-UNCH_OBS   == UNCHANGED <<received, ended>>
+UNCH_OBS   == UNCHANGED <<received, ended, cnt, pend>>
 
 (***************************************************************************)
 (* Producer: enqueue_from_iterator (773-795), put (701-717),               *)
@@ -105,7 +115,7 @@ PLoop(p) ==                        \* while not self.enqueue_done  (777)
   /\ UNCH_LOCKS /\ UNCH_WAIT /\ UNCH_STATE /\ UNCHANGED q /\ UNCH_PLOC /\ UNCH_CLOC /\ UNCH_OBS
 
 PNext(p) ==                        \* next(iterator): value / raises / StopIteration(p)   (779-795)
-  /\ pc[p] = "p_next"
+  /\ pc[p] = "p_next" /\ ~Shared
   /\ IF FailAt[p] = idx[p] + 1
      THEN \* the iterator raises: ignore_error -> continue, else self._exception = e; _stop_enqueue()
           IF IgnoreError
@@ -117,7 +127,28 @@ PNext(p) ==                        \* next(iterator): value / raises / StopItera
           ELSE /\ idx' = [idx EXCEPT ![p] = @ + 1]
                /\ item' = [item EXCEPT ![p] = <<p, idx[p] + 1>>]
                /\ Goto(p, "p_acqE") /\ UNCHANGED exc
-  /\ UNCH_LOCKS /\ UNCH_WAIT /\ UNCHANGED <<q, start, stop, maxenq, exhausted, returned, stopped>> /\ UNCH_CLOC /\ UNCH_OBS
+  /\ UNCH_LOCKS /\ UNCH_WAIT /\ UNCHANGED <<q, start, stop, maxenq, exhausted, returned, stopped, ownL, srcIdx>>
+  /\ UNCH_CLOC /\ UNCH_OBS
+
+PAcqL(p) ==                        \* _ThreadSafeIterator.__next__: with self._lock  (iter_utils.py:805-807)
+  /\ pc[p] = "p_next" /\ Shared /\ ownL = NoOne
+  /\ ownL' = p /\ Goto(p, "p_src")
+  /\ UNCH_LOCKS /\ UNCH_WAIT /\ UNCH_STATE /\ UNCHANGED <<q, idx, item, srcIdx>> /\ UNCH_CLOC /\ UNCH_OBS
+
+PSrc(p) ==                         \* next(self._iterator) of the shared input, then the lock is released
+  /\ pc[p] = "p_src"
+  /\ ownL' = NoOne
+  /\ IF SrcFail = srcIdx + 1
+     THEN IF IgnoreError
+          THEN /\ srcIdx' = srcIdx + 1 /\ Goto(p, "p_loop") /\ UNCHANGED <<exc, item>>
+          ELSE /\ exc' = TRUE /\ Goto(p, "p_stopF") /\ UNCHANGED <<srcIdx, item>>
+     ELSE IF srcIdx = SrcN
+          THEN /\ Goto(p, "p_stopR") /\ UNCHANGED <<exc, srcIdx, item>>
+          ELSE /\ srcIdx' = srcIdx + 1
+               /\ item' = [item EXCEPT ![p] = <<"src", srcIdx + 1>>]
+               /\ Goto(p, "p_acqE") /\ UNCHANGED exc
+  /\ UNCH_LOCKS /\ UNCH_WAIT /\ UNCHANGED <<q, start, stop, maxenq, exhausted, returned, stopped, idx>>
+  /\ UNCH_CLOC /\ UNCH_OBS
 
 PAcqE(p) ==                        \* with self._enqueue_lock  (703)
   /\ pc[p] = "p_acqE" /\ ownE = NoOne
@@ -177,7 +208,7 @@ PStop(p) ==                        \* _stop_enqueue: with S: stop = min(stop+1, 
   /\ pc[p] \in {"p_stopR", "p_stopF"} /\ ownS = NoOne
   /\ ownS' = p
   /\ stop' = Min(stop + 1, start)
-  /\ returned' = IF pc[p] = "p_stopR" THEN Append(returned, p) ELSE returned
+  /\ returned' = IF pc[p] = "p_stopR" /\ ~Shared THEN Append(returned, p) ELSE returned   \* map() generators return nothing
   /\ Goto(p, "p_stopchk")
   /\ UNCHANGED <<ownE, ownD, q, start, maxenq, exc, exhausted, stopped>> /\ UNCH_WAIT /\ UNCH_PLOC /\ UNCH_CLOC /\ UNCH_OBS
 
@@ -240,7 +271,7 @@ CInner(c) ==                       \* self._queue.get_nowait() (597) / except Em
           /\ IF exhausted
              THEN ownS' = NoOne /\ ownD' = NoOne /\ CEnd(c, EndKind)
              ELSE Goto(c, "c_edone") /\ UNCHANGED <<ownD, ownS, ended>>
-  /\ UNCHANGED <<ownE, res, received>> /\ UNCH_WAIT /\ UNCH_STATE /\ UNCH_PLOC
+  /\ UNCHANGED <<ownE, res, received, cnt, pend>> /\ UNCH_WAIT /\ UNCH_STATE /\ UNCH_PLOC
 
 CEDone(c) ==                       \* if self.enqueue_done: _set_exhausted(); raise (606-608) else raise Empty -> D.wait()
   /\ pc[c] = "c_edone"
@@ -251,7 +282,7 @@ CEDone(c) ==                       \* if self.enqueue_done: _set_exhausted(); ra
      ELSE /\ ownS' = NoOne /\ ownD' = NoOne
           /\ waitD' = Append(waitD, c) /\ Goto(c, "c_waitD")
           /\ UNCHANGED <<exhausted, notified, ended>>
-  /\ UNCHANGED <<ownE, waitE, q, start, stop, maxenq, exc, returned, stopped, received>> /\ UNCH_PLOC /\ UNCH_CLOC
+  /\ UNCHANGED <<ownE, waitE, q, start, stop, maxenq, exc, returned, stopped, received, cnt, pend>> /\ UNCH_PLOC /\ UNCH_CLOC
 
 CEmptyChk(c) ==                    \* if self._queue.empty() ... (599)
   /\ pc[c] = "c_emptychk"
@@ -276,7 +307,7 @@ CReacqD(c) ==                      \* finally: D.acquire() (486); return value; 
   /\ pc[c] = "c_reacqD" /\ ownD = NoOne
   /\ received' = [received EXCEPT ![c] = Append(@, val[c])]
   /\ Goto(c, "c_acqD")
-  /\ UNCH_LOCKS /\ UNCH_WAIT /\ UNCH_STATE /\ UNCHANGED <<q, ended>> /\ UNCH_PLOC /\ UNCH_CLOC
+  /\ UNCH_LOCKS /\ UNCH_WAIT /\ UNCH_STATE /\ UNCHANGED <<q, ended, cnt, pend>> /\ UNCH_PLOC /\ UNCH_CLOC
 
 CWake(c) ==                        \* D.wait() returned True: `continue` (686-688)
   /\ pc[c] = "c_waitD" /\ c \in notified /\ ownD = NoOne
@@ -287,7 +318,7 @@ CTimeout(c) ==                     \* D.wait(timeout) returned False: raise Time
   /\ Timeout /\ pc[c] = "c_waitD" /\ c \notin notified /\ ownD = NoOne
   /\ waitD' = Without(waitD, c)
   /\ ended' = [ended EXCEPT ![c] = <<"timeout">>] /\ Goto(c, "done")
-  /\ UNCH_LOCKS /\ UNCHANGED <<waitE, notified, q, received>> /\ UNCH_STATE /\ UNCH_PLOC /\ UNCH_CLOC
+  /\ UNCH_LOCKS /\ UNCHANGED <<waitE, notified, q, received, cnt, pend>> /\ UNCH_STATE /\ UNCH_PLOC /\ UNCH_CLOC
 
 (***************************************************************************)
 (* get_batch(K, block) (619-669)                                           *)
@@ -300,10 +331,12 @@ BTop(c, r) == IF Full(c, r) THEN ownD' = NoOne /\ Goto(c, "b_final")
 \* get_nowait raised StopIteration / the exception inside get_batch (659-663)
 BRaise(c, kind) ==
   IF (kind = "stop" /\ res[c] # <<>>) \/ (kind = "exc" /\ IgnoreError)
-  THEN /\ ownD' = NoOne /\ Goto(c, "b_final") /\ UNCHANGED <<ended, res>>          \* break
+  THEN /\ ownD' = NoOne /\ Goto(c, "b_final") /\ UNCHANGED <<ended, pend, res>>    \* break
   ELSE /\ ownD' = NoOne /\ res' = [res EXCEPT ![c] = <<>>]                         \* raise e: the batch is dropped
-       /\ ended' = [ended EXCEPT ![c] = IF kind = "stop" THEN <<"stop", returned>> ELSE <<kind>>]
-       /\ Goto(c, "done")
+       /\ LET e == IF kind = "stop" THEN <<"stop", returned>> ELSE <<kind>> IN
+            IF Mode[c] = "diter"
+            THEN pend' = [pend EXCEPT ![c] = e] /\ UNCHANGED ended /\ Goto(c, "x2_acqS")   \* MultiplexIterator.__next__: maybe_stop()
+            ELSE ended' = [ended EXCEPT ![c] = e] /\ UNCHANGED pend /\ Goto(c, "done")
 
 BAcqD(c) ==
   /\ pc[c] = "b_acqD" /\ ownD = NoOne
@@ -320,12 +353,12 @@ BInner(c) ==
   /\ pc[c] = "b_inner"
   /\ IF q # <<>>
      THEN /\ val' = [val EXCEPT ![c] = Head(q)] /\ q' = Tail(q)
-          /\ Goto(c, "b_emptychk") /\ UNCHANGED <<ownD, ownS, ended, res>>
+          /\ Goto(c, "b_emptychk") /\ UNCHANGED <<ownD, ownS, ended, pend, res>>
      ELSE /\ UNCHANGED <<q, val>>
           /\ IF exhausted
              THEN ownS' = NoOne /\ BRaise(c, EndKind)
-             ELSE Goto(c, "b_edone") /\ UNCHANGED <<ownD, ownS, ended, res>>
-  /\ UNCHANGED <<ownE, received>> /\ UNCH_WAIT /\ UNCH_STATE /\ UNCH_PLOC
+             ELSE Goto(c, "b_edone") /\ UNCHANGED <<ownD, ownS, ended, pend, res>>
+  /\ UNCHANGED <<ownE, received, cnt>> /\ UNCH_WAIT /\ UNCH_STATE /\ UNCH_PLOC
 
 BEDone(c) ==                       \* Empty and not exhausted: enqueue_done? (606)  else the Empty handler of get_batch (641-655)
   /\ pc[c] = "b_edone"
@@ -333,13 +366,13 @@ BEDone(c) ==                       \* Empty and not exhausted: enqueue_done? (60
      THEN /\ exhausted' = TRUE /\ waitD' = <<>> /\ notified' = notified \cup NotifyAll(waitD)[2]
           /\ ownS' = NoOne /\ BRaise(c, EndKind)
      ELSE /\ ownS' = NoOne
-          /\ UNCHANGED <<exhausted, waitD, notified, ended, res>>
+          /\ UNCHANGED <<exhausted, waitD, notified, ended, pend, res>>
           /\ IF (~Block[c] /\ res[c] # <<>>) \/ (Block[c] /\ K[c] > 0 /\ Len(res[c]) = K[c])
              THEN ownD' = NoOne /\ Goto(c, "b_final")                           \* break
              ELSE IF res[c] # <<>>
                   THEN ownD' = NoOne /\ Goto(c, "b_midnotE")                    \* _release_and_notify(D, E)
                   ELSE UNCHANGED ownD /\ Goto(c, "b_emptyre")
-  /\ UNCHANGED <<ownE, waitE, q, start, stop, maxenq, exc, returned, stopped, val, received>> /\ UNCH_PLOC
+  /\ UNCHANGED <<ownE, waitE, q, start, stop, maxenq, exc, returned, stopped, val, received, cnt>> /\ UNCH_PLOC
 
 BMidNotE(c) ==
   /\ pc[c] = "b_midnotE" /\ ownE = NoOne
@@ -378,8 +411,10 @@ BTimeout(c) ==
   /\ Timeout /\ pc[c] = "b_waitD" /\ c \notin notified /\ ownD = NoOne
   /\ waitD' = Without(waitD, c)
   /\ res' = [res EXCEPT ![c] = <<>>]
-  /\ ended' = [ended EXCEPT ![c] = <<"timeout">>] /\ Goto(c, "done")
-  /\ UNCH_LOCKS /\ UNCHANGED <<waitE, notified, q, val, received>> /\ UNCH_STATE /\ UNCH_PLOC
+  /\ IF Mode[c] = "diter"
+     THEN pend' = [pend EXCEPT ![c] = <<"timeout">>] /\ UNCHANGED ended /\ Goto(c, "x2_acqS")
+     ELSE ended' = [ended EXCEPT ![c] = <<"timeout">>] /\ UNCHANGED pend /\ Goto(c, "done")
+  /\ UNCH_LOCKS /\ UNCHANGED <<waitE, notified, q, val, received, cnt>> /\ UNCH_STATE /\ UNCH_PLOC
 
 BEmptyChk(c) ==                    \* after a successful inner get: if self._queue.empty() (599)
   /\ pc[c] = "b_emptychk"
@@ -400,49 +435,90 @@ BDoneChk(c) ==
 BFinal(c) ==                       \* with E: E.notify() (664-665); return result
   /\ pc[c] = "b_final" /\ ownE = NoOne
   /\ waitE' = Notify1(waitE)[1] /\ notified' = notified \cup Notify1(waitE)[2]
-  /\ received' = [received EXCEPT ![c] = @ \o res[c]]
-  /\ Goto(c, "b_acqD")
-  /\ UNCH_LOCKS /\ UNCHANGED <<waitD, q, ended>> /\ UNCH_STATE /\ UNCH_PLOC /\ UNCH_CLOC
+  /\ IF Mode[c] = "diter" /\ Steps[c] >= 0
+     THEN \* DequeueIterator hands out the batch element by element until num_steps is reached
+          LET room == Steps[c] - cnt[c]
+              take == IF Len(res[c]) < room THEN Len(res[c]) ELSE room IN
+          /\ received' = [received EXCEPT ![c] = @ \o SubSeq(res[c], 1, take)]
+          /\ cnt' = [cnt EXCEPT ![c] = @ + take]
+          /\ Goto(c, IF cnt[c] + take = Steps[c] THEN "x1_acqS" ELSE "b_acqD")
+     ELSE /\ received' = [received EXCEPT ![c] = @ \o res[c]]
+          /\ cnt' = [cnt EXCEPT ![c] = IF Mode[c] = "diter" THEN @ + Len(res[c]) ELSE @]
+          /\ Goto(c, "b_acqD")
+  /\ UNCH_LOCKS /\ UNCHANGED <<waitD, q, ended, pend>> /\ UNCH_STATE /\ UNCH_PLOC /\ UNCH_CLOC
 
 (***************************************************************************)
 (* maybe_stop (744-771)                                                    *)
 (***************************************************************************)
-SAcqS(s) ==                        \* with S: stop = start = max; maybe self._exception = exc
-  /\ pc[s] = "s_acqS" /\ ownS = NoOne
-  /\ ownS' = s
+\* maybe_stop as a sequence of four segments of process p whose labels start with `pre`;
+\* used by external stoppers (pre = "s_") and by DequeueIterator / MultiplexIterator ("x1_", "x2_")
+GStopAcqS(p, pre, withExc) ==      \* with S: stop = start = max; maybe self._exception = exc
+  /\ pc[p] = pre \o "acqS" /\ ownS = NoOne
+  /\ ownS' = p
   /\ stop' = maxenq /\ start' = maxenq
-  /\ exc' = (exc \/ StopExc[s])
+  /\ exc' = (exc \/ withExc)
   /\ stopped' = (stopped \/ "stopped_flag" \in Fixes)
-  /\ Goto(s, "s_assert")
+  /\ Goto(p, pre \o "assert")
   /\ UNCHANGED <<ownE, ownD, q, maxenq, exhausted, returned>> /\ UNCH_WAIT /\ UNCH_PLOC /\ UNCH_CLOC /\ UNCH_OBS
 
-SAssert(s) ==                      \* assert self.enqueue_done (762); leave `with S`
-  /\ pc[s] = "s_assert"
+GStopAssert(p, pre) ==             \* assert self.enqueue_done (762); leave `with S`
+  /\ pc[p] = pre \o "assert"
   /\ ownS' = NoOne
-  /\ Goto(s, IF Done THEN "s_acqE" ELSE "s_assertfail")
+  /\ Goto(p, IF Done THEN pre \o "acqE" ELSE "s_assertfail")
   /\ UNCHANGED <<ownE, ownD, q>> /\ UNCH_WAIT /\ UNCH_STATE /\ UNCH_PLOC /\ UNCH_CLOC /\ UNCH_OBS
 
-SAcqE(s) ==                        \* with E: E.notify_all()
-  /\ pc[s] = "s_acqE" /\ ownE = NoOne
+GStopAcqE(p, pre) ==               \* with E: E.notify_all()
+  /\ pc[p] = pre \o "acqE" /\ ownE = NoOne
   /\ waitE' = <<>> /\ notified' = notified \cup NotifyAll(waitE)[2]
-  /\ Goto(s, "s_acqD")
+  /\ Goto(p, pre \o "acqD")
   /\ UNCH_LOCKS /\ UNCHANGED <<waitD, q>> /\ UNCH_STATE /\ UNCH_PLOC /\ UNCH_CLOC /\ UNCH_OBS
 
-SAcqD(s) ==                        \* with D: _set_exhausted() or D.notify_all()
-  /\ pc[s] = "s_acqD" /\ ownD = NoOne
-  /\ exhausted' = (exhausted \/ StopExc[s])
+GStopAcqD(p, pre, withExc, after) ==   \* with D: _set_exhausted() or D.notify_all()
+  /\ pc[p] = pre \o "acqD" /\ ownD = NoOne
+  /\ exhausted' = (exhausted \/ withExc)
   /\ waitD' = <<>> /\ notified' = notified \cup NotifyAll(waitD)[2]
-  /\ Goto(s, "done")
+  /\ Goto(p, after)
   /\ UNCH_LOCKS /\ UNCHANGED <<waitE, q, start, stop, maxenq, exc, returned, stopped>> /\ UNCH_PLOC /\ UNCH_CLOC /\ UNCH_OBS
 
+SAcqS(s)   == GStopAcqS(s, "s_", StopExc[s])
+SAssert(s) == GStopAssert(s, "s_")
+SAcqE(s)   == GStopAcqE(s, "s_")
+SAcqD(s)   == GStopAcqD(s, "s_", StopExc[s], "done")
+
 (***************************************************************************)
-ProdStep(p) == \/ PStart(p) \/ PLoop(p) \/ PNext(p) \/ PAcqE(p) \/ PChk(p) \/ PTry(p) \/ PProg(p)
+(* DequeueIterator(num_steps) inside MultiplexIterator (813-837, 373-408):  *)
+(* consumer mode "diter".  get_batch() without arguments is batch mode with *)
+(* K = 0, Block = FALSE; the elements of a returned batch are handed out    *)
+(* without further synchronisation until num_steps is reached, then         *)
+(* maybe_stop() (x1_), StopIteration, MultiplexIterator.maybe_stop():       *)
+(* queue.maybe_stop() again (x2_) and thread_pool.shutdown() (d_join).      *)
+(***************************************************************************)
+X1AcqS(c)   == GStopAcqS(c, "x1_", FALSE)
+X1Assert(c) == GStopAssert(c, "x1_")
+X1AcqE(c)   == GStopAcqE(c, "x1_")
+X1AcqD(c)   == GStopAcqD(c, "x1_", FALSE, "x2_acqS")
+X2AcqS(c)   == GStopAcqS(c, "x2_", FALSE)
+X2Assert(c) == GStopAssert(c, "x2_")
+X2AcqE(c)   == GStopAcqE(c, "x2_")
+X2AcqD(c)   == GStopAcqD(c, "x2_", FALSE, "d_join")
+
+DJoin(c) ==                        \* thread_pool.shutdown(wait=True): every worker thread has finished
+  /\ pc[c] = "d_join"
+  /\ \A p \in Prods : pc[p] = "done"
+  /\ Goto(c, "done")
+  /\ ended' = [ended EXCEPT ![c] = IF pend[c][1] = "run" THEN <<"stopped">> ELSE pend[c]]
+  /\ UNCH_LOCKS /\ UNCH_WAIT /\ UNCH_STATE /\ UNCHANGED <<q, received, cnt, pend>> /\ UNCH_PLOC /\ UNCH_CLOC
+
+(***************************************************************************)
+ProdStep(p) == \/ PStart(p) \/ PLoop(p) \/ PNext(p) \/ PAcqL(p) \/ PSrc(p) \/ PAcqE(p) \/ PChk(p) \/ PTry(p) \/ PProg(p)
                \/ PNotD(p) \/ PReacqE(p) \/ PFullChk(p) \/ PWake(p) \/ PTimeout(p)
                \/ PStop(p) \/ PStopChk(p) \/ PStopNot(p) \/ PStopReacq(p) \/ PStopNotE(p) \/ PStopReacq2(p)
 ConsStep(c) == \/ CAcqD(c) \/ CAcqS(c) \/ CInner(c) \/ CEDone(c) \/ CEmptyChk(c) \/ CDoneChk(c)
                \/ CNotE(c) \/ CReacqD(c) \/ CWake(c) \/ CTimeout(c)
                \/ BAcqD(c) \/ BAcqS(c) \/ BInner(c) \/ BEDone(c) \/ BMidNotE(c) \/ BMidReacqD(c)
                \/ BEmptyRe(c) \/ BDoneRe(c) \/ BWake(c) \/ BTimeout(c) \/ BEmptyChk(c) \/ BDoneChk(c) \/ BFinal(c)
+               \/ X1AcqS(c) \/ X1Assert(c) \/ X1AcqE(c) \/ X1AcqD(c)
+               \/ X2AcqS(c) \/ X2Assert(c) \/ X2AcqE(c) \/ X2AcqD(c) \/ DJoin(c)
 StopStep(s) == SAcqS(s) \/ SAssert(s) \/ SAcqE(s) \/ SAcqD(s)
 
 AllDone == \A p \in Procs : pc[p] \in {"done", "s_assertfail"}
@@ -478,17 +554,21 @@ NoDup == /\ \A c1, c2 \in Cons : c1 # c2 => Held(c1) \cap Held(c2) = {}
          /\ \A c \in Cons : Held(c) \cap Range(q) = {}
          /\ \A i, j \in 1..Len(q) : i # j => q[i] # q[j]
 \* only produced elements are ever received (causality)
-Causal == \A c \in Cons : \A e \in Held(c) : e[2] >= 1 /\ e[2] <= idx[e[1]]
+Causal == \A c \in Cons : \A e \in Held(c) :
+            e[2] >= 1 /\ (IF Shared THEN e[1] = "src" /\ e[2] <= srcIdx ELSE e[2] <= idx[e[1]])
 \* per-producer order inside every consumer's sequence and inside the queue
 Ordered(s) == \A i, j \in 1..Len(s) : (i < j /\ s[i][1] = s[j][1]) => s[i][2] < s[j][2]
-PerProducerOrder == Ordered(q) /\ \A c \in Cons : Ordered(received[c])
+PerProducerOrder == ~Shared => (Ordered(q) /\ \A c \in Cons : Ordered(received[c]))
 
-NoFault == (\A p \in Prods : FailAt[p] = 0) /\ Stoppers = {} /\ ~Timeout
+NoFault == (\A p \in Prods : FailAt[p] = 0) /\ Stoppers = {} /\ ~Timeout /\ SrcFail = 0
+           /\ \A c \in Cons : Steps[c] < 0
 \* fault-free terminal states: every produced element received exactly once, end-of-stream carries all returns
 FaultFreeEnd ==
   (NoFault /\ AllDone) =>
-     /\ UNION {Range(received[c]) : c \in Cons} = UNION {{<<p, j>> : j \in 1..N[p]} : p \in Prods}
-     /\ \A c \in Cons : ended[c][1] = "stop" /\ Range(ended[c][2]) = Prods /\ Len(ended[c][2]) = Cardinality(Prods)
+     /\ UNION {Range(received[c]) : c \in Cons}
+          = (IF Shared THEN {<<"src", j>> : j \in 1..SrcN} ELSE UNION {{<<p, j>> : j \in 1..N[p]} : p \in Prods})
+     /\ \A c \in Cons : ended[c][1] = "stop"
+                        /\ (~Shared => (Range(ended[c][2]) = Prods /\ Len(ended[c][2]) = Cardinality(Prods)))
      /\ q = <<>>
 \* a clean end-of-stream is only ever reported after every declared producer finished
 EndOnlyWhenDone ==
